@@ -190,6 +190,7 @@ package dt
 //@   ensures nilorshort: (l == nil || len(l.elems) < 2) ==> result == true
 //@   ensures sorted: l != nil ==> result == (forall i: int :: 1 <= i && i < len(l.elems) ==> !apply(lt, cast(l.elems[i], "*Element").item, cast(l.elems[i - 1], "*Element").item))
 //@   loop 1 invariant wf(l) && len(l.elems) >= 2 && item != nil && (item == l.root || (member(l, item) && item.idx >= 1))
+//@   loop 1 decreases (item == l.root ? 0 : len(l.elems) - item.idx)
 //@   loop 1 invariant forall i: int :: 1 <= i && i < (item == l.root ? len(l.elems) : item.idx) ==> !apply(lt, cast(l.elems[i], "*Element").item, cast(l.elems[i - 1], "*Element").item)
 
 // Heap: a list kept sorted by LT (no element is LT its predecessor). Push
@@ -225,6 +226,7 @@ package dt
 //@   ensures first: old(h.list) == nil ==> len(h.list.elems) == 1 && cast(h.list.elems[0], "*Element").item == t
 //@   ensures inserted: old(h.list) != nil ==> h.list == old(h.list) && 0 <= h.list.lastIns && h.list.lastIns <= len(old(h.list.elems)) && h.list.elems == insert(old(h.list.elems), h.list.lastIns, h.list.elems[h.list.lastIns]) && cast(h.list.elems[h.list.lastIns], "*Element").item == t && fresh(h.list.elems[h.list.lastIns])
 //@   loop 1 invariant h.list != nil && h.list == old(h.list) && wf(h.list) && hsorted(h) && asym(h, t) && h.list.elems == old(h.list.elems) && len(h.list.elems) > 0 && item != nil && (item == h.list.root || member(h.list, item))
+//@   loop 1 decreases (item == h.list.root ? 0 : item.idx + 1)
 //@   loop 1 invariant forall j: int :: (item == h.list.root ? 0 : item.idx + 1) <= j && j < len(h.list.elems) ==> apply(h.LT, t, cast(h.list.elems[j], "*Element").item)
 
 //@ func (*Heap).Pop
